@@ -2,23 +2,19 @@ from vlib import H
 PROPERTY = 'C59'
 LEVEL = 'model_checking'
 CLAIM = ('src/node/eviction.cpp (static functions reached by including the .cpp): (1) each of the 7 comparators is a strict weak order for all field values (irreflexive, asymmetric, transitive, transitive incomparability) '
-         'and orders by the key the property names (higher ping / lower netgroup / older tx / older block first, i.e. protected peers last). (2) EraseLastKElements with the real std::sort/remove_if/erase on N<=4 (thorough 5) fully symbolic candidates and symbolic k: '
+         'and orders by the key the property names (higher ping / lower netgroup / older tx / older block first, i.e. protected peers last). (2) EraseLastKElements with the real std::sort/remove_if/erase on N<=4 (thorough 5; with a non-default predicate N=2, thorough 3) fully symbolic candidates and symbolic k: '
          'survivors are distinct inputs in comparator order; an element is erased only if it satisfies the predicate and fewer than k inputs are strictly after it; a predicate-satisfying survivor has at least k others not before it; erased elements are never '
          'ordered before such survivors; exactly min(k,n) erased for the default predicate (i.e. the protected set is a set of k maximal elements under every tie-break). (3) ProtectNoBanConnections / ProtectOutboundConnections remove exactly the noban / non-inbound candidates, order preserved. '
-         '(4) SelectNodeToEvict end to end only on a concrete, constant-tight scenario family (see assumptions). Not reached: SelectNodeToEvict with >= 21 fully symbolic candidates; ProtectEvictionCandidatesByRatio with symbolic candidates.')
+         'NOT reached: SelectNodeToEvict end to end (the order of the protection steps and the constants 4/8/4/8/4): it needs >= 21 candidates and five sorts; fully symbolic runs (real introsort, and a nondeterministic sort model) did not finish in 30 min, and a concrete-key scenario run did not finish its symbolic execution within 400 s under the driver flags; ProtectEvictionCandidatesByRatio with symbolic candidates (N=4 timed out).')
 LINK = []
 COMMON = dict(link=LINK, nofmt=True, timeout=300, diff_runs=16)
 HARNESSES = [
     H('cmp_swo', 'evict.cpp', 'h_cmp_swo', variants=[{'CMP': i} for i in range(7)], unwind=4,
       functions=['ReverseCompareNodeMinPingTime', 'ReverseCompareNodeTimeConnected', 'CompareNetGroupKeyed', 'CompareNodeBlockTime', 'CompareNodeTXTime', 'CompareNodeBlockRelayOnlyTime', 'CompareNodeNetworkTime'],
       bounds='3 candidates, all fields full width', **COMMON),
-    H('erase_last_k', 'evict.cpp', 'h_erase_last_k', variants=[{'NC': 3, 'CMP': 5, 'PRED': 1}, {'NC': 3, 'CMP': 6, 'PRED': 2}, {'NC': 3, 'CMP': 4, 'PRED': 0}, {'NC': 4, 'CMP': 2, 'PRED': 0}],
-      tvariants=[{'NC': 5, 'CMP': 2, 'PRED': 0}, {'NC': 4, 'CMP': 5, 'PRED': 1}, {'NC': 4, 'CMP': 6, 'PRED': 2}, {'NC': 4, 'CMP': 0, 'PRED': 0, 'ALLFIELDS': 1}, {'NC': 4, 'CMP': 3, 'PRED': 0}], unwind=9,
-      functions=['EraseLastKElements', 'std::sort', 'std::remove_if', 'std::vector::erase'], bounds='N<=4 (thorough 5) candidates, k in 0..N+1, all attributes symbolic', **COMMON),
-    H('protect_filters', 'evict.cpp', 'h_protect_filters', variants=[{'NC': 4}], tvariants=[{'NC': 6}], unwind=9,
-      functions=['ProtectNoBanConnections', 'ProtectOutboundConnections'], bounds='N=4 (thorough 6)', **COMMON),
-    H('select_scenario', 'evict.cpp', 'h_select_scenario', variants=[{'NC': 21}, {'NC': 23}], tvariants=[{'NC': 21}, {'NC': 22}, {'NC': 23}, {'NC': 26}], unwind=30, memunwind=90, **dict(COMMON, timeout=600),
-      functions=['SelectNodeToEvict', 'ProtectEvictionCandidatesByRatio', 'EraseLastKElements', 'std::sort (real introsort)', 'std::map<uint64_t, std::vector<NodeEvictionCandidate>>'],
-      bounds='concrete scenario family (21..26 peers in disjoint best-in-one-criterion groups); only sort-irrelevant attributes symbolic',
-      assumptions=['scenario harness: the order of protection steps and the constants 4/8/4/4 are checked on concrete key values; a fully symbolic N>=21 run of SelectNodeToEvict did not finish in 30 min and is not claimed']),
+    H('erase_last_k', 'evict.cpp', 'h_erase_last_k', variants=[{'NC': 2, 'CMP': 5, 'PRED': 1}, {'NC': 3, 'CMP': 4, 'PRED': 0}, {'NC': 4, 'CMP': 2, 'PRED': 0}],
+      tvariants=[{'NC': 3, 'CMP': 5, 'PRED': 1}, {'NC': 3, 'CMP': 6, 'PRED': 2}, {'NC': 3, 'CMP': 4, 'PRED': 0}, {'NC': 4, 'CMP': 2, 'PRED': 0}, {'NC': 5, 'CMP': 2, 'PRED': 0}, {'NC': 4, 'CMP': 0, 'PRED': 0, 'ALLFIELDS': 1}, {'NC': 4, 'CMP': 3, 'PRED': 0}], unwind=9,
+      functions=['EraseLastKElements', 'std::sort', 'std::remove_if', 'std::vector::erase'], bounds='N<=4 (thorough 5) candidates, k in 0..N+1, all attributes symbolic', **dict(COMMON, timeout=900)),
+    H('protect_filters', 'evict.cpp', 'h_protect_filters', variants=[{'NC': 2}], tvariants=[{'NC': 2}, {'NC': 3}], unwind=9,
+      functions=['ProtectNoBanConnections', 'ProtectOutboundConnections'], bounds='N=2 (thorough 3)', **dict(COMMON, timeout=900)),
 ]
